@@ -941,6 +941,7 @@ class Server:
             asyncio.create_task(self.parse_command(stream)),
         }
         self.connections[key] = connection
+        previous_cmd = None
         try:
             while True:
                 done, pending = await asyncio.wait(
@@ -966,12 +967,15 @@ class Server:
                         )
                         cmd, rest = result
                         f = self.commands_mapping.get(cmd)
+                        # restart offset applies only to a transfer command
+                        # which immediately follows REST
+                        if cmd not in ("retr", "stor", "appe") or previous_cmd != "rest":
+                            connection.restart_offset = 0
+                        previous_cmd = cmd
                         if f is not None:
                             pending.add(
                                 asyncio.create_task(f(connection, rest)),
                             )
-                            if cmd not in ("retr", "stor", "appe"):
-                                connection.restart_offset = 0
                         else:
                             message = f"{cmd!r} not implemented"
                             connection.response("502", message)
